@@ -407,6 +407,17 @@ def expired_programs(c):
                       S("DropResponse", 1, 1, d, 1), S("UpdateClient", 1)]
                 p += [S("DropPending", 1, 0, n) for n in reqs]
                 progs.append(p)
+    # borrows only: nothing undelivered, the connection is kept for the held response alone
+    for b in reqs:
+        for client_updates_first in (False, True):
+            p = list(base) + [S("SendCopyResponse", 1, 1, b), S("ReceiveResponse", 1, 0, b)]
+            p += [S("DropActive", 1, 1, n) for n in reqs] + [S("DropServer", 0, 1)]
+            if client_updates_first:
+                p += [S("UpdateClient", 1)]
+            p += [S("ReceiveResponse", 1, 0, n) for n in reqs] + [S("ReceiveResponse", 1, 0, b), S("IsConnectedP", 1, 0, b),
+                                                                 S("DropResponse", 1, 1, b, 1), S("UpdateClient", 1)]
+            p += [S("DropPending", 1, 0, n) for n in reqs]
+            progs.append(p)
     # mirrored: the client goes away while the server holds active requests (request payloads) and has a request queued
     for keep_queued in (True, False):
         p = [S("CreateServer", 0, 1), S("CreateClient", 1)] + [S("SendCopy", 1)] * k
@@ -524,7 +535,8 @@ CONC_CORE = [
     ("fresh", "send-drop", "recv-conn"), ("fresh", "send-hint", "recv-conn"), ("fresh", "send", "recv-recv"),
     ("queued", "drop", "recv-conn"), ("queued", "drop-send", "recv-recv"), ("queued", "hint", "recv-conn"),
     ("active", "drop", "respond-drop"), ("active", "drop", "conn-hint-respond"), ("active", "recv", "respond-drop"),
-    ("active", "hint", "conn-hint-respond"), ("active", "conn-recv", "drop"), ("active", "drop-send", "drop"),
+    ("active", "hint", "conn-hint-respond"), ("active", "hint", "drop"), ("active", "hint", "respond-drop"),
+    ("active", "conn-recv", "drop"), ("active", "drop-send", "drop"),
     ("active", "recv", "loan-send"),
     ("answered", "recv", "respond-drop"), ("answered", "has-recv-release", "respond-drop"), ("answered", "drop", "respond-drop"),
     ("stale-queued", "send", "recv"), ("stale-queued", "send-hint", "has-recv-drop"), ("stale-queued", "send", "recv-recv"),
